@@ -163,6 +163,10 @@ def build():
     one(r"if\s+write\s*==\s*1\s*\{", b, "scan_name root check")
     one(r'assert!\(self\.zonefile\.buf\.start\s*>\s*0,\s*"missing token prefix space"\)', b, "scan_name prefix assertion")
     defs.append(("scan_name_handles_at", "bool", "true" if re.search(r"skip_at_token\(\)", b) else "false"))
+    n_empty = len(re.findall(r"if\s+write\s*==\s*start\s*\+\s*1\s*\{\s*return\s+Err\(EntryError::bad_name\(\)\)", b))
+    if n_empty > 1:
+        raise GenError("scan_name: more than one empty-label check")
+    defs.append(("name_rejects_empty_label", "bool", "true" if n_empty == 1 else "false"))
 
     # ---- scan_string: is the closing quote kept out of the result?
     b = fn_body(inp, "scan_string", after="impl Scanner for EntryScanner")
